@@ -5,6 +5,8 @@ type nat =
 | O
 | S of nat
 
+val option_map : ('a1 -> 'a2) -> 'a1 option -> 'a2 option
+
 val fst : ('a1 * 'a2) -> 'a1
 
 val snd : ('a1 * 'a2) -> 'a2
@@ -19,6 +21,8 @@ type comparison =
 | Gt
 
 val compOpp : comparison -> comparison
+
+val add : nat -> nat -> nat
 
 val sub : nat -> nat -> nat
 
@@ -39,6 +43,8 @@ type z =
 module Nat :
  sig
   val eqb : nat -> nat -> bool
+
+  val leb : nat -> nat -> bool
  end
 
 module Pos :
@@ -81,6 +87,10 @@ module Coq_Pos :
   val compare : positive -> positive -> comparison
 
   val eqb : positive -> positive -> bool
+
+  val iter_op : ('a1 -> 'a1 -> 'a1) -> positive -> 'a1 -> 'a1
+
+  val to_nat : positive -> nat
 
   val of_succ_nat : nat -> positive
  end
@@ -126,6 +136,8 @@ module Z :
 
   val eqb : z -> z -> bool
 
+  val to_nat : z -> nat
+
   val of_nat : nat -> z
 
   val of_N : n -> z
@@ -143,9 +155,35 @@ module Z :
   val even : z -> bool
  end
 
+val hd : 'a1 -> 'a1 list -> 'a1
+
+val tl : 'a1 list -> 'a1 list
+
+val nth : nat -> 'a1 list -> 'a1 -> 'a1
+
+val last : 'a1 list -> 'a1 -> 'a1
+
+val rev : 'a1 list -> 'a1 list
+
+val concat : 'a1 list list -> 'a1 list
+
 val map : ('a1 -> 'a2) -> 'a1 list -> 'a2 list
 
+val flat_map : ('a1 -> 'a2 list) -> 'a1 list -> 'a2 list
+
+val fold_right : ('a2 -> 'a1 -> 'a1) -> 'a1 -> 'a2 list -> 'a1
+
 val existsb : ('a1 -> bool) -> 'a1 list -> bool
+
+val forallb : ('a1 -> bool) -> 'a1 list -> bool
+
+val find : ('a1 -> bool) -> 'a1 list -> 'a1 option
+
+val list_prod : 'a1 list -> 'a2 list -> ('a1 * 'a2) list
+
+val skipn : nat -> 'a1 list -> 'a1 list
+
+val repeat : 'a1 -> nat -> 'a1 list
 
 type sx =
 | I of z
@@ -159,10 +197,16 @@ val sx_list : (sx -> 'a1 option) -> sx -> 'a1 list option
 
 val sx_LZ : sx -> z list option
 
+val sx_LLZ : sx -> z list list option
+
+val sx_nat : sx -> nat option
+
 val sx_bool : sx -> bool option
 
 val sx_pair :
   (sx -> 'a1 option) -> (sx -> 'a2 option) -> sx -> ('a1 * 'a2) option
+
+val of_Z : z -> sx
 
 val of_nat0 : nat -> sx
 
@@ -276,5 +320,138 @@ val sx_rat : sx -> rat option
 val run_choose : sx -> sx
 
 val run_round : sx -> sx
+
+val zinsert : z -> z list -> z list
+
+val zsort : z list -> z list
+
+val zmem : z -> z list -> bool
+
+val zassoc : z -> (z * 'a1) list -> 'a1 option
+
+val znodup_b : z list -> bool
+
+type node = z
+
+type level = (node * z list) list
+
+type tree = level list
+
+val nodes : level -> node list
+
+val children_of : level -> node -> z list
+
+val is_nil0 : 'a1 list -> bool
+
+val all_have_parent : level -> level -> bool
+
+val scan_children :
+  level -> node -> z list -> (z * z) list -> (z * z) list option
+
+val scan_parents : level -> level -> (z * z) list -> (z * z) list option
+
+val validate_pair : level -> level -> bool
+
+val validate_pairs : tree -> bool
+
+val leaf_level : tree -> level
+
+val leaf_rows : tree -> z list
+
+val validate0 : tree -> bool
+
+val parent_of : level -> node -> node option
+
+val ancestors : tree -> nat -> node -> (nat * node) list
+
+val all_parents_from : nat -> tree -> (nat * node) list
+
+val all_parents : tree -> (nat * node) option list
+
+val leaves_from : level list -> node -> node list
+
+val as_leaves : tree -> (node * node list) list list
+
+val combos2 : 'a1 list -> ('a1 * 'a1) list
+
+val order_pair : (z * z) -> z * z
+
+val leaf_pairs : tree -> (nat * node) option -> (node * node) list
+
+type 'a tres =
+| TOk of 'a
+| TErr of z
+
+val e_FLAT : z
+
+val e_NOLEVEL : z
+
+val e_LEAF : z
+
+val e_INVALID : z
+
+val remove_nth : nat -> 'a1 list -> 'a1 list
+
+val replace_nth : nat -> 'a1 -> 'a1 list -> 'a1 list
+
+val mk_tree : tree -> tree tres
+
+val drop_level_gen : tree -> nat -> bool -> tree tres
+
+val drop_level : tree -> nat -> tree tres
+
+val drop_leaf_level : tree -> tree tres
+
+val flatten : tree -> tree tres
+
+val drop_cells : tree -> tree
+
+val add_edge : level -> z -> z -> bool -> level
+
+val add_record : tree -> z list -> z -> tree
+
+val tree_of_records : nat -> z list list -> z -> tree -> tree
+
+val get_taxonomy_tree : nat -> z list list -> tree tres
+
+val set_eqb : z list -> z list -> bool
+
+val is_equal_to : tree -> tree -> bool
+
+val sx_level : sx -> level option
+
+val sx_tree : sx -> tree option
+
+val of_level : level -> sx
+
+val of_tree : tree -> sx
+
+val sx_parent : sx -> (nat * node) option option
+
+val of_tres : ('a1 -> sx) -> 'a1 tres -> sx
+
+val of_pairsZ : (z * z) list -> sx
+
+val run_validate0 : sx -> sx
+
+val run_as_leaves : sx -> sx
+
+val run_leaf_pairs : sx -> sx
+
+val run_drop_level : sx -> sx
+
+val run_flatten : sx -> sx
+
+val run_drop_leaf : sx -> sx
+
+val run_ancestors : sx -> sx
+
+val run_from_records : sx -> sx
+
+val run_all_parents : sx -> sx
+
+val run_drop_cells : sx -> sx
+
+val run_is_equal : sx -> sx
 
 val dispatch : z -> sx -> sx
